@@ -3,6 +3,7 @@
 #include "model.hpp"
 #include <algorithm>
 #include <cstdio>
+#include <cstdlib>
 
 namespace vf {
 
@@ -457,7 +458,7 @@ void World::checkLogger(int i, const Op& op, const Obs& before) {
 			bool found = k + 1 < h.trace.size() && h.trace[k + 1].k == EV_LOG_SELECT && h.trace[k + 1].state == e.state && h.trace[k + 1].a == e.a;
 			if (!found) { std::snprintf(b, sizeof b, "%s: select() of %d returned %d but the logger did not get that resolution next", h.role.c_str(), e.state, e.a); violate("C16.logger_select", b, i); }
 		}
-		if (e.k == EV_LOG_RANDOM && !(s.node->caps() & CAP_BUILTIN_RNG)) {
+		if (e.k == EV_LOG_RANDOM && e.a >= 0 && !(s.node->caps() & CAP_BUILTIN_RNG)) {   // a < 0: an orthogonal region reporting its mean utility
 			checked("C16.logger_random");
 			bool found = false;
 			for (size_t q = k; q-- > 0;) if (h.trace[q].k == EV_RNG) { found = std::memcmp(&h.trace[q].f, &e.f, 4) == 0; break; }
@@ -643,8 +644,8 @@ void World::crossCheck(const Op& op) {
 		checked("C10.copy");
 		if (!sameTrace(*A.h, *C.h, false, false, &w)) {
 			std::snprintf(b, sizeof b, "copy does not continue like its original during %s: event #%zu: original %s", opName(op.kind), w, w < A.h->trace.size() ? evStr(A.h->trace[w]).c_str() : "(end)");
-			violate("C10.copy", b, iC);
-		} else if (!A.obs.sameConfig(C.obs) || A.obs.prev != C.obs.prev) violate("C10.copy", std::string("copy and original answer differently after ") + opName(op.kind), iC);
+			violate("C10.copy", b, iC, (A.node->caps() & CAP_BUILTIN_RNG) ? "copy_shares_builtin_rng" : "");
+		} else if (!A.obs.sameConfig(C.obs) || A.obs.prev != C.obs.prev) violate("C10.copy", std::string("copy and original answer differently after ") + opName(op.kind), iC, (A.node->caps() & CAP_BUILTIN_RNG) ? "copy_shares_builtin_rng" : "");
 	}
 	if (iB >= 0 && slots[size_t(iB)].node && slots[size_t(iB)].obs.alive && wants("C15")) {
 		Slot& B = slots[size_t(iB)];
@@ -672,6 +673,13 @@ void World::execOp(const Op& op) {
 			const Obs before = slots[size_t(t)].obs;
 			apply(t, op);
 			observe(t);
+			if (std::getenv("VF_TRACE")) {
+				std::fprintf(stderr, "-- op %d %s on %s\n", opIndex, opName(op.kind), slots[size_t(t)].h->role.c_str());
+				for (auto& e : slots[size_t(t)].h->trace) std::fprintf(stderr, "   %s\n", evStr(e).c_str());
+				std::fprintf(stderr, "   active:"); for (size_t k = 0; k < slots[size_t(t)].obs.active.size(); ++k) if (slots[size_t(t)].obs.active[k]) std::fprintf(stderr, " %zu", k);
+				std::fprintf(stderr, "  resumable:"); for (size_t k = 0; k < slots[size_t(t)].obs.resumable.size(); ++k) if (slots[size_t(t)].obs.resumable[k]) std::fprintf(stderr, " %zu", k);
+				std::fprintf(stderr, "\n");
+			}
 			afterOp(t, op, before);
 			if (result.tainted) return;
 		}
@@ -696,8 +704,39 @@ void World::execOp(const Op& op) {
 }
 
 RunResult World::run() {
+	std::jmp_buf jb;
+	if (setjmp(jb) == 0) {
+		g_assertJump = &jb;
+		runBody();
+	} else {
+		// a library assertion fired: the instance is in an undefined state, nothing more is executed on any node
+		g_inLibrary = 0;
+		for (auto& s : slots) if (s.node && s.node->alive()) s.node->abandon();
+		result.tainted = true;
+		if (!asserts.empty()) {
+			const AssertHit& a = asserts.front();
+			std::string tag;
+			if (a.expr.find("_count < CAPACITY") != std::string::npos) tag = "array_overflow";
+			if (a.expr.find("_core.requests.count() == 0") != std::string::npos) tag = "substitution_limit_leftover";
+			if (a.expr.find("tasksFailures .get(stateId)") != std::string::npos || a.expr.find("tasksSuccesses.get(stateId)") != std::string::npos) tag = "status_mark_on_inactive_state";
+			Harness* h = (curNode >= 0 && curNode < int(slots.size())) ? slots[size_t(curNode)].h.get() : nullptr;
+			if (h && a.expr.find("registry.isActive(HEAD_ID)") != std::string::npos && h->inActivation && h->shape->isOrtho(0)) tag = "activation_request_ortho_root";
+			checked("C11.assert");
+			violate("C11.assert", (h ? h->role : std::string("?")) + ": library assertion `" + a.expr + "` failed at " + a.file + ":" + std::to_string(a.line) + " during " + opName(curOpKind), curNode, tag);
+		}
+	}
+	g_assertJump = nullptr;
+	uint64_t hsh = 0;
+	for (auto& s : slots) if (s.h) hsh = mix64(hsh, s.h->hash);
+	result.hash = hsh;
+	if (cov && collect) { ++cov->runs; cov->ops += result.opsExecuted; }
+	g_assertSink = nullptr;
+	return result;
+}
+
+void World::runBody() {
 	std::string err;
-	if (!setup(err)) { Violation v; v.oracle = "SIM.setup"; v.detail = err; result.violations.push_back(v); return result; }
+	if (!setup(err)) { Violation v; v.oracle = "SIM.setup"; v.detail = err; result.violations.push_back(v); return; }
 	g_assertSink = &asserts;
 	g_libAllocs = 0;
 	opIndex = -1;
@@ -752,12 +791,6 @@ RunResult World::run() {
 			}
 		}
 	}
-	uint64_t hsh = 0;
-	for (auto& s : slots) if (s.h) hsh = mix64(hsh, s.h->hash);
-	result.hash = hsh;
-	if (cov && collect) { ++cov->runs; cov->ops += result.opsExecuted; }
-	g_assertSink = nullptr;
-	return result;
 }
 
 RunResult execute(const RunPlan& p, Coverage* cov) {
